@@ -32,8 +32,8 @@ theorem firstMatch_unknown (rules : List String) (rest : List Char) (r : String)
       · obtain ⟨h1, h2⟩ := ih h
         exact ⟨by simp [h1], h2⟩
 
-theorem plyToken_no_gap (s : LexerState) (text : List Char) (pos : Nat) (r : String) :
-    plyToken s text pos ≠ .modelGap r := by
+theorem plyToken_no_gap (s : LexerState) (text : List Char) (pos : Nat) (r : String) {ap : Bool} :
+    plyToken s text pos ap ≠ .modelGap r := by
   intro h
   unfold plyToken at h
   simp only at h
